@@ -29,6 +29,10 @@ CHECKS = {
             "All 304 registered block types x 14 versions are instantiated with populated fields by answering the reader through the typed read hook; every reference and "
             "string index that is actually serialised (both directions) must be reported by GetChildRefs/GetPtrs/GetStringRefs, and GetChildIndices must agree with GetChildRefs. "
             "Exhaustive over the registered types and versions, sampled over field values.", "3/C05"),
+    "C06": ("exploration", "runtime monitor: executable reference model of an indexed object graph stepped in lock-step with NiHeader/NifFile edits (exhaustive short sequences on small graphs + random long ones), plus save/independent-parse/reload",
+            "After every single edit the library's block order, enumerated reference slots and header accessors are compared with the model derived from the verified pre-state; all "
+            "op sequences up to length 3 (4) over a state-dependent alphabet are enumerated on five small graphs in three versions, random sequences run on real, synthesised and "
+            "API-built models; sequences end with raw save, independent header check, reload and reference comparison.", "3/C06"),
     "C07": ("exploration", "runtime monitor: independent header/footer walker + hook trace of the writing save + byte counts consumed by the library's reader, over files written after round trips and random API edits",
             "Every output of every save in the workload is parsed by a reader that shares no code with the library and trusts only the header tables; declared sizes are compared with "
             "what the writer emitted between Block hook events and with what the reader consumes on reload; string-index fields are located through the StringRef hook. "
